@@ -923,3 +923,52 @@ def counter_while_to_for(fn: ast.FunctionDef):
             blk[:] = [s2 for s2 in blk if not any(s2 is d for d in drop)]
             return ast.fix_missing_locations(fn)
     return fn
+
+
+def filter_loops_to_comprehensions(stmts: list) -> list:
+    """`out = {}` followed by `for T in ITER: if COND: out[K] = V` (or `if not COND: continue` before the store) is the dictionary
+    comprehension `{K: V for T in ITER if COND}`; returns a new statement list (the nodes of the other statements are shared, nothing is mutated).
+    Only applied when the loop targets are not read afterwards and `out` occurs nowhere else in the loop."""
+    def names(t, ctx=None):
+        return {x.id for x in ast.walk(t) if isinstance(x, ast.Name) and (ctx is None or isinstance(x.ctx, ctx))}
+
+    out, i = [], 0
+    while i < len(stmts):
+        a = stmts[i]
+        b = stmts[i + 1] if i + 1 < len(stmts) else None
+        new = None
+        if isinstance(a, (ast.Assign, ast.AnnAssign)) and isinstance(b, ast.For) and not b.orelse:
+            tg = a.targets[0] if isinstance(a, ast.Assign) and len(a.targets) == 1 else (a.target if isinstance(a, ast.AnnAssign) else None)
+            val = a.value
+            empty = (isinstance(val, ast.Dict) and not val.keys) or (isinstance(val, ast.Call) and isinstance(val.func, ast.Name) and val.func.id == "dict" and not val.args and not val.keywords)
+            if isinstance(tg, ast.Name) and empty:
+                body, cond = b.body, None
+                if len(body) == 1 and isinstance(body[0], ast.If) and not body[0].orelse and len(body[0].body) == 1:
+                    cond, st = body[0].test, body[0].body[0]
+                elif len(body) == 2 and isinstance(body[0], ast.If) and not body[0].orelse and len(body[0].body) == 1 and isinstance(body[0].body[0], ast.Continue):
+                    cond, st = ast.UnaryOp(op=ast.Not(), operand=body[0].test), body[1]
+                    if isinstance(body[0].test, ast.UnaryOp) and isinstance(body[0].test.op, ast.Not):
+                        cond = body[0].test.operand
+                    ast.copy_location(cond, body[0].test)
+                else:
+                    st = None
+                if st is not None and isinstance(st, ast.Assign) and len(st.targets) == 1 and isinstance(st.targets[0], ast.Subscript) \
+                        and isinstance(st.targets[0].value, ast.Name) and st.targets[0].value.id == tg.id:
+                    key, value = st.targets[0].slice, st.value
+                    bound = names(b.target)
+                    later = set()
+                    for r in stmts[i + 2:]:
+                        later |= names(r, ast.Load)
+                    if tg.id not in (names(b.iter) | names(cond) | names(key) | names(value)) and not (bound & later) and not any(isinstance(x, (ast.Yield, ast.YieldFrom, ast.Await, ast.NamedExpr)) for x in ast.walk(b)):
+                        comp = ast.DictComp(key=key, value=value, generators=[ast.comprehension(target=b.target, iter=b.iter, ifs=[cond], is_async=0)])
+                        new = ast.Assign(targets=[ast.Name(id=tg.id, ctx=ast.Store())], value=comp)
+                        ast.copy_location(comp, b)
+                        ast.copy_location(new, b)
+                        ast.fix_missing_locations(new)
+        if new is not None:
+            out.append(new)
+            i += 2
+        else:
+            out.append(a)
+            i += 1
+    return out
